@@ -64,7 +64,7 @@ def run_guarded(mod, case) -> Result:
     except CaseTimeout:
         r = Result()
         r.n = 1
-        r.violation(case, ['case did not finish within the %ds guard (non-termination)' % CASE_GUARD_S])
+        r.violation(case, ['case did not finish within the %ds guard (non-termination)' % getattr(mod, 'CASE_GUARD_S', CASE_GUARD_S)])
     except Exception as ex:  # noqa
         r = Result()
         r.n = 1
